@@ -78,6 +78,7 @@ def generate():
     key_public_field = False
     nonkey_public_fields = []
     keyable_impls, ownedlockable_ref = [], False
+    ol_impls = []
     struct_ids = {}
     for k, v in idx.items():
         if v.get("name") in TYPES and "struct" in v["inner"] and v["visibility"] == "public":
@@ -157,6 +158,31 @@ def generate():
                     keyable_impls.append("?")
             if tname == "OwnedLockable" and "borrowed_ref" in forty and not forty["borrowed_ref"]["is_mutable"]:
                 ownedlockable_ref = True
+            if tname == "OwnedLockable":
+                # head of the implementing type, and whether every type parameter of the impl is itself OwnedLockable
+                if "borrowed_ref" in forty:
+                    head = "&mut" if forty["borrowed_ref"]["is_mutable"] else "&"
+                elif "tuple" in forty:
+                    head = "tuple"
+                elif "array" in forty:
+                    head = "array"
+                elif "slice" in forty:
+                    head = "slice"
+                elif "resolved_path" in forty:
+                    head = forty["resolved_path"]["path"].split("::")[-1]
+                elif "generic" in forty:
+                    head = "generic"
+                else:
+                    head = "?"
+                owned = {}
+                for p in im["generics"]["params"]:
+                    if "type" in p["kind"]:
+                        owned[p["name"]] = "OwnedLockable" in bound_names(p["kind"]["type"]["bounds"])
+                for w in im["generics"]["where_predicates"]:
+                    bp = w.get("bound_predicate")
+                    if bp and "generic" in bp["type"] and "OwnedLockable" in bound_names(bp["bounds"]):
+                        owned[bp["type"]["generic"]] = True
+                ol_impls.append((head, all(owned.values())))
             if "borrowed_ref" in forty and not forty["borrowed_ref"]["is_mutable"]:
                 inner = forty["borrowed_ref"]["type"]
                 if "resolved_path" in inner:
@@ -183,7 +209,7 @@ def generate():
                     if sup is not None and sup.get("name") == "Sealed":
                         sealed = not all_public(idx, j, sid)
     return render(rules, timpls, fns, key_public_field, nonkey_public_fields, sorted(set(keyable_impls)), sealed,
-                  ownedlockable_ref), log
+                  ownedlockable_ref, sorted(set(ol_impls))), log
 
 
 def all_public(idx, j, sid):
@@ -262,7 +288,7 @@ def cb(b):
     return "true" if b else "false"
 
 
-def render(rules, timpls, fns, key_public_field, nonkey_public_fields, keyable_impls, sealed, ownedlockable_ref):
+def render(rules, timpls, fns, key_public_field, nonkey_public_fields, keyable_impls, sealed, ownedlockable_ref, ol_impls):
     o = ["(* GENERATED by tools/apitable.py from the rustdoc JSON of /repo's working tree — do not edit. *)",
          "From Coq Require Import List String Bool.", "Import ListNotations.", "Open Scope string_scope.", "",
          "Inductive marker := MSend | MSync.",
@@ -299,6 +325,9 @@ def render(rules, timpls, fns, key_public_field, nonkey_public_fields, keyable_i
     o.append("Definition keyable_impls : list string := [" + "; ".join(f'"{x}"' for x in keyable_impls) + "].")
     o.append(f"Definition keyable_sealed : bool := {cb(sealed)}.")
     o.append(f"Definition ownedlockable_for_shared_ref : bool := {cb(ownedlockable_ref)}.")
+    o.append("(* every `impl OwnedLockable for ..`: head of the implementing type, are all its type parameters OwnedLockable *)")
+    o.append("Definition ownedlockable_impls : list (string * bool) := [" +
+             "; ".join(f'("{h}", {cb(b)})' for h, b in ol_impls) + "].")
     return "\n".join(o) + "\n"
 
 
